@@ -224,8 +224,16 @@ func (br *bridge) deliver(from, to *mgrFix, chid datatransfer.ChannelID, msg dat
 			if resp != nil {
 				rw, err := doubles.Reencode(resp)
 				if err == nil {
-					err = from.tp.Events().OnResponseReceived(chid, rw.(datatransfer.Response))
-					br.note(from, chid, rw, err)
+					back := func() {
+						err := from.tp.Events().OnResponseReceived(chid, rw.(datatransfer.Response))
+						br.note(from, chid, rw, err)
+					}
+					br.mu.Lock()
+					hr := br.hold
+					br.mu.Unlock()
+					if hr == nil || !hr(from, chid, rw, back) { // the reply travels back as a message of its own
+						back()
+					}
 				}
 			}
 		} else {
